@@ -359,6 +359,10 @@ def run_real(ops, backing=False, held=None):
             except Budget:
                 raise Discard('budget')
             except Exception as e:
+                if rep and t.get('concrete_count') and isinstance(e, RecursionError) and int(cnt.arg) > 64:
+                    # hundreds of overlapping copies nest the copied value a level deeper per step: the interpreter's
+                    # recursion limit, which the same number of single steps would meet as well - not the rep loop
+                    raise Discard('depth-limit')
                 if rep and t.get('concrete_count'):
                     t['raised'] = type(e).__name__
                     trace.append(t)
